@@ -194,7 +194,7 @@ impl<'a> ProgGen<'a> {
             }
         }
         // names introduced by type-level wrappers are reserved before the wrapped type is generated
-        let wrap = if self.cfg.type_level && self.r.chance(1, 10) { 1 + self.r.below(3) } else { 0 };
+        let wrap = if self.cfg.type_level && self.r.chance(1, 7) { [1, 2, 2, 3][self.r.usize(4)] } else { 0 };
         let wrap_name = match wrap {
             1 => self.fresh_name("t"),
             3 => self.fresh_name("ty"),
@@ -245,7 +245,7 @@ impl<'a> ProgGen<'a> {
             2 => {
                 self.feature("type-level-conditional");
                 let other = if self.r.chance(1, 2) { H::Bool } else { H::Int };
-                match self.r.below(3) {
+                match self.r.below(4) {
                     0 => H::If(hb(H::True), hb(base), hb(other)),
                     1 => H::If(hb(H::Bin(Op::Lt, hb(H::lit(2)), hb(H::lit(1)))), hb(other), hb(base)),
                     _ => {
